@@ -62,8 +62,29 @@ def _enum(tier, shard, nshards):
                                thr1=[0.0, 0], thr2=[0.5, 1], compiled=bool(idx & 1))
 
 
+@st.composite
+def _decimal(draw, tier):
+    """Trains on a DECIMAL grid that does not start at zero (t0 + k*0.1 evaluated in
+    doubles): time differences and half-ISIs tie only up to the last bit, and nothing is
+    exactly representable - the filter's kernel and the profile's kernel must still take
+    the same decisions, because the statement defines the filter through the profile."""
+    t0 = draw(st.sampled_from([0.1, 0.3, 0.7, 1.1, -0.9]))
+    step = draw(st.sampled_from([0.1, 0.3, 0.05]))
+    n = draw(st.integers(6, 40))
+    N = draw(st.integers(2, 4))
+    trains = []
+    for _ in range(N):
+        ks = sorted(draw(st.lists(st.integers(0, n), max_size=8, unique=True)))
+        trains.append([t0 + k * step for k in ks])
+    k = draw(st.integers(0, N - 1))
+    return dict(kind="decimal", t0=t0, t1=t0 + n * step, trains=trains, thr=[k / (N - 1), k],
+                mrts=draw(st.sampled_from([None, 0.0, 4 * step])), max_tau=None,
+                compiled=draw(st.booleans()))
+
+
 PHASES = [
     HypPhase("dyadic", _case, dict(quick=4500, thorough=40000)),
+    HypPhase("decimal", _decimal, dict(quick=1500, thorough=15000)),
     EnumPhase("grid4x3", _enum,
               lambda tier: "all ordered triples of subsets of {0..4} on [0,4] x "
                            "(MRTS,max_tau) in {(0,None),(2,None),(0,1)} with thresholds "
@@ -107,6 +128,8 @@ def _hits_exactly(case):
 def classify(case):
     N = len(case["trains"])
     labels = ["N=%d" % N, "compiled" if case["compiled"] else "fallback"]
+    if case.get("kind") == "decimal":
+        return labels + ["decimal_grid"]
     if _hits_exactly(case):
         labels.append("fraction_equals_threshold")
     if case["mrts"]:
@@ -118,11 +141,56 @@ def classify(case):
 
 
 def nontrivial(case):
+    if case.get("kind") == "decimal":
+        return len(case["trains"]) >= 3 and sum(len(t) for t in case["trains"]) >= 6
     return len(case["trains"]) >= 3 and _hits_exactly(case)
+
+
+def _run_decimal(case, ctx):
+    """filter vs the library's own multivariate profile (the statement's definition of
+    what is kept), on inputs where exact-rational reasoning about the doubles' ties
+    would be no better than the code's"""
+    import pyspike
+    ctx.set_backend(case["compiled"])
+    sts = ps.trains(case)
+    N = len(sts)
+    v, k = case["thr"]
+    if v * (N - 1) != k:
+        ctx.notes["threshold_not_exact_skipped"] += 1
+        return
+    kw = {} if case["mrts"] is None else {"MRTS": case["mrts"]}
+    kept, removed = ctx.call("filter", pyspike.filter_by_spike_sync, sts, v,
+                             return_removed_spikes=True, **kw)
+    prof = ctx.call("spike_sync_profile_multi", pyspike.spike_sync_profile, sts, **kw)
+    owners = {}
+    for n, tr in enumerate(case["trains"]):
+        for t in tr:
+            owners.setdefault(t, []).append(n)
+    px = [float(x) for x in prof.x[1:-1]]
+    py = [float(y) for y in prof.y[1:-1]]
+    pm = [float(m) for m in prof.mp[1:-1]]
+    for n, tr in enumerate(case["trains"]):
+        merged = sorted(list(kept[n].spikes) + list(removed[n].spikes))
+        ctx.check(merged == list(tr), "partition",
+                  lambda: "train %d: kept+removed=%r input=%r" % (n, merged, tr))
+        for t in tr:
+            if len(owners[t]) != 1 or px.count(t) != 1:
+                continue
+            j = px.index(t)
+            want = py[j] > k
+            ctx.check(pm[j] == N - 1, "profile_multiplicity",
+                      lambda: "profile multiplicity %r at %r, N-1=%d" % (pm[j], t, N - 1))
+            ctx.check((t in list(kept[n].spikes)) == want, "kept_vs_profile_value",
+                      lambda: "train %d spike %r: the multivariate profile shows %r of %d, "
+                              "threshold %r, but the filter %s it (trains %r on [%r,%r] %r)"
+                      % (n, t, py[j], N - 1, v, "keeps" if not want else "removes",
+                         case["trains"], case["t0"], case["t1"], kw))
 
 
 def run_case(case, ctx):
     import pyspike
+    if case.get("kind") == "decimal":
+        return _run_decimal(case, ctx)
     ctx.set_backend(case["compiled"])
     sts = ps.trains(case)
     N = len(sts)
